@@ -37,8 +37,16 @@ func c02Gen(t *rapid.T) vPipeCase {
 	}
 	npre, nsamp := c.Npre, c.Nsamp
 	switch rapid.IntRange(0, 9).Draw(t, "startmode") {
-	case 0, 1, 2, 3: // fresh start with settings restored from the saved configuration, nothing else
+	case 0, 1, 2: // fresh start with settings restored from the saved configuration, nothing else
 		c.Restored = append(c.Restored, vRestored{Chans: all, Trig: vGenTrig(t, npre, nsamp, c.PeriodNs, false)})
+	case 3: // restored: two groups of channels saved with different settings (when there are two channels)
+		if c.Nchan >= 2 {
+			k := rapid.IntRange(1, c.Nchan-1).Draw(t, "split")
+			c.Restored = append(c.Restored, vRestored{Chans: all[:k], Trig: vGenTrig(t, npre, nsamp, c.PeriodNs, false)},
+				vRestored{Chans: all[k:], Trig: vGenTrig(t, npre, nsamp, c.PeriodNs, false)})
+		} else {
+			c.Restored = append(c.Restored, vRestored{Chans: all, Trig: vGenTrig(t, npre, nsamp, c.PeriodNs, false)})
+		}
 	case 4: // restored for one channel only
 		c.Restored = append(c.Restored, vRestored{Chans: []int{rapid.IntRange(0, c.Nchan-1).Draw(t, "rch")}, Trig: vGenTrig(t, npre, nsamp, c.PeriodNs, false)})
 	default:
